@@ -290,7 +290,10 @@ impl<'a, 'b> G<'a, 'b> {
                 3 if depth > 0 => T::Adt("Pair".into(), vec![self.gen_type(depth - 1), self.gen_type(depth - 1)]),
                 _ => T::Adt("Shape".into(), vec![]),
             },
-            _ => T::Fn(vec![self.gen_type(0)], Box::new(self.gen_type(0))),
+            _ => {
+                let n = 1 + self.c.weighted(&[3, 2, 1]);
+                T::Fn((0..n).map(|_| self.gen_type(0)).collect(), Box::new(self.gen_type(0)))
+            }
         }
     }
 
@@ -511,7 +514,9 @@ impl<'a, 'b> G<'a, 'b> {
             T::Fn(ps, r) => {
                 self.tag("lambda");
                 self.out.push_str("fn(");
-                let annotate_this = self.c.chance(128);
+                // all parameters annotated, none, or each one on its own (an unannotated parameter in
+                // front of an annotated one and the other way round)
+                let mode = self.c.below(3);
                 let mut names = vec![];
                 for (i, p) in ps.iter().enumerate() {
                     if i > 0 {
@@ -519,22 +524,25 @@ impl<'a, 'b> G<'a, 'b> {
                     }
                     let n = self.fresh("p");
                     self.out.push_str(&n);
-                    if self.f.lambda_annotations && annotate_this {
+                    let annotated = self.f.lambda_annotations && match mode { 0 => true, 1 => false, _ => self.c.chance(128) };
+                    if annotated {
                         self.out.push_str(": ");
                         let a = self.annot_of(&p);
                         self.out.push_str(&a);
                     }
-                    names.push((n, p.clone()));
+                    names.push((n, p.clone(), annotated));
                 }
                 self.out.push_str(") {\n");
                 let mark = self.env.len();
                 // a parameter that is not used leaves its type undetermined: an equality with an
                 // expression of the intended type fixes it (unless it is annotated)
-                let annotated = self.f.lambda_annotations && annotate_this;
-                if annotated {
+                if names.iter().any(|x| x.2) {
                     self.tag("lambda annotation determines the type");
                 }
-                for (n, p) in names.iter().filter(|_| !annotated) {
+                if names.iter().any(|x| x.2) && names.iter().any(|x| !x.2) {
+                    self.tag("lambda with annotated and unannotated parameters");
+                }
+                for (n, p, _) in names.iter().filter(|x| !x.2) {
                     self.out.push_str(&format!("let _ = {} == ", n));
                     self.expr_operand(p, 0);
                     self.out.push('\n');
@@ -1198,6 +1206,19 @@ impl<'a, 'b> G<'a, 'b> {
 
     /// `fn(p) { p OP literal }(argument)`: the operator alone determines the parameter's type
     fn operator_through_param(&mut self, t: &T) {
+        if *t == T::Str && self.c.chance(80) {
+            // `|>` binds tighter than `<>`: the parameter is what `render` takes, not a String
+            self.tag("pipeline as the right operand of <>");
+            let p = self.fresh("p");
+            self.out.push_str("fn(");
+            let off = self.out.len();
+            self.out.push_str(&p);
+            self.out.push_str(&format!(") {{ \"n=\" <> {} |> render }}(", p));
+            self.known_arg(&T::Int, 0, false);
+            self.out.push(')');
+            self.record(&p, off, T::Int, "lambda parameter");
+            return;
+        }
         self.tag("operator determines an unannotated parameter");
         let (ops, operand, lit): (&[&str], T, &str) = match t {
             T::Bool => match self.c.below(3) {
@@ -1385,6 +1406,7 @@ pub fn gen_program(c: &mut Choices, f: &Features) -> Program {
         "fn keep(a: a, b: b) -> a {\n  let _ = b\n  a\n}\n\n",
         "fn apply(x: a, f: fn(a) -> b) -> b {\n  f(x)\n}\n\n",
         "fn apply_l(value x: a, with f: fn(a) -> b) -> b {\n  f(x)\n}\n\n",
+        "fn render(n: Int) -> String {\n  let _ = n\n  \"r\"\n}\n\n",
         // generic without annotations, with locals spelled like top-level functions (a local is not
         // a call: the function must stay generalised whoever calls it)
         "fn shadow(x) {\n  let user0 = x\n  let even = user0\n  even\n}\n\n",
